@@ -7,7 +7,10 @@ driver after every controller step and at the end of every phase) decide violati
 histories: one or more phases on the same shared memory / semaphore / worker processes (e.g. a same-id
 race whose loser is refused inside the lock, then 2-3 interleaved registrations). Worker processes also JOIN while
 registrations of the others are parked at their schedule points (exec + the normal start-up, which runs cmbbs.PasswdInit
-on the attach path) and LEAVE (exit / SIGKILL) with their calls parked anywhere, e.g. holding the lock (SEM_UNDO)."""
+on the attach path) and LEAVE (exit / SIGKILL) with their calls parked anywhere, e.g. holding the lock (SEM_UNDO).
+A second driver, built with `-tags "verif docker"` (the production table sizes: MAX_USERS = 2 000 000 slots, 65 536 buckets
+in the id index), runs registration races on tables where existing accounts sit in slots above the number of buckets and
+share the bucket of the id being registered, and where the new accounts themselves get such slots (big_section)."""
 import concurrent.futures, json, os, sys
 sys.path.insert(0, os.path.join(os.path.dirname(os.path.abspath(__file__)), "..", "lib"))
 import vf
@@ -60,6 +63,50 @@ def single(mode, procs, ids, tab, sched):
     return Case(mode, tab, [(procs, ids[:-1], sched), ([0], ids[-1:], [])], op=1)
 
 
+BIG_TAGS, BIG_NAME = "verif docker", "implrun_docker"      # the second driver: the production table sizes
+BIG_MAX_USERS, BIG_BUCKETS = 2000000, 65536                 # ptttype/01-config-docker.go MAX_USERS; 1 << HASH_BITS
+
+
+def filler(uid):
+    return b"f%07d" % uid                                   # c15big.go c15Filler
+
+
+class BigCase(Case):
+    """op 4: a history on production-size tables (driver built with -tags docker: MAX_USERS = 2 000 000 slots, 65 536 buckets):
+    .PASSWDS of nrec records, slots 1..nfill hold generated accounts, accounts planted in chosen slots {uid: id}"""
+    def __init__(self, mode, nrec, nfill, planted, phases):
+        Case.__init__(self, mode, [], phases, op=4)
+        self.nrec, self.nfill, self.planted = nrec, nfill, dict(planted)
+        top = max([nfill] + list(self.planted))
+        self.tab = [self.planted.get(u, filler(u) if u <= nfill else b"") for u in range(1, top + 1)]
+
+    def line(self):
+        nums = lambda l: " ".join(map(str, l))
+        pl = " ".join("%d %s" % (u, enc([i])) for u, i in sorted(self.planted.items()))
+        return "4|%d|%d %d|%s|" % (self.mode, self.nrec, self.nfill, pl) + "|".join("%s|%s|%s" % (nums(p), enc(i), nums(s)) for p, i, s in self.phases)
+
+    def describe(self):
+        gen = "slots 1..%d hold generated accounts f0000001.. (the free slots start at %d)" % (self.nfill, self.nfill + 1) if self.nfill else "no generated accounts (the free slots start at 1)"
+        return "[driver built with -tags docker: MAX_USERS = %d slots, %d buckets in the id index; .PASSWDS of %d records, %s, existing accounts planted: %s] " \
+               % (BIG_MAX_USERS, BIG_BUCKETS, self.nrec, gen, ", ".join("slot %d = %s" % (u, i.decode("latin-1")) for u, i in sorted(self.planted.items())) or "none") + Case.describe(self)
+
+    @staticmethod
+    def from_line(line):
+        g = [x.split() for x in line.split("|")]
+        ints = lambda l: [int(x) for x in l]
+        return BigCase(int(g[1][0]), int(g[2][0]), int(g[2][1]), dec_sparse(g[3]),
+                       [(ints(g[i]), dec(g[i + 1]), ints(g[i + 2])) for i in range(4, len(g), 3)])
+
+
+def dec_sparse(toks):
+    out, i = {}, 0
+    while i < len(toks):
+        n = int(toks[i + 1])
+        out[int(toks[i])] = bytes(int(x) for x in toks[i + 2:i + 2 + n])
+        i += 2 + n
+    return out
+
+
 def enc(ids):
     return " ".join(" ".join([str(len(i))] + [str(b) for b in i]) for i in ids)
 
@@ -108,6 +155,31 @@ def parse(out):
     rs = [(int(p[1][i]), int(p[1][i + 1]), int(p[1][i + 2])) for i in range(0, len(p[1]), 3)]
     look = [int(x) for x in p[2]]
     return ev, rs, look, dec(p[3]), dec(p[4])
+
+
+def parse_big(case, out, nslots):
+    """op 4 result: the final index and .PASSWDS come as differences against the initial table; made dense here.
+    Returns the 5 parts of parse() + (MAX_USERS of the driver, number of accounts of the final index that
+    cache.DoSearchUserRaw does not find, the first of them as (uid, answer))"""
+    f = out.split()
+    if not f or f[0] != "0":
+        return None
+    p = split(f[1:])
+    if len(p) != 6 or len(p[5]) < 2:
+        return None
+    ev = [(int(p[0][i]), int(p[0][i + 1]), int(p[0][i + 2])) for i in range(0, len(p[0]), 3)]
+    rs = [(int(p[1][i]), int(p[1][i + 1]), int(p[1][i + 2])) for i in range(0, len(p[1]), 3)]
+    look = [int(x) for x in p[2]]
+    tabs, changed = [], set()
+    for part in (p[3], p[4]):
+        t = list(case.tab) + [b""] * (nslots - len(case.tab))
+        for u, i in dec_sparse(part).items():
+            changed.add(u)
+            if 1 <= u <= nslots:
+                t[u - 1] = i
+        tabs.append(t)
+    x = [int(v) for v in p[5]]
+    return ev, rs, look, tabs[0], tabs[1], (x[0], x[1], [(x[i], x[i + 1]) for i in range(2, len(x) - 1, 2)], changed)
 
 
 def model_schedule(ev):
@@ -192,12 +264,20 @@ def predicates(case, out, nslots):
                "2": "a worker process did not finish its start-up", "3": "a worker process did not acknowledge a new call",
                "4": "a call of a later phase, issued when nothing else was in flight, did not return"}.get(f[2], "") if len(f) > 2 and f[1] == "77" else "deadline of the driver"
         return [("reg-hang", "the registrations did not all return, also when run alone with 8 times longer waits (%s): %s trace so far=%s" % (why, case.describe(), " ".join(f[3:])[:600]))]
-    p = parse(out)
+    p = parse_big(case, out, nslots) if case.op == 4 else parse(out)
     if p is None:
         return [("reg-driver", "unexpected driver output %s" % out[:200])]
-    ev, rs, look, idx, pwd = p
+    ev, rs, look, idx, pwd = p[:5]
     init = list(tab) + [b""] * (nslots - len(tab))
     who = "%s events=%s results=%s" % (case.describe(), [e for e in ev if e[1] != 11], rs)
+    if case.op == 4:
+        maxusers, nlost, lost = p[5][:3]
+        if maxusers != nslots:
+            return [("reg-driver", "the driver of the production-size runs reports MAX_USERS = %d, expected %d: %s" % (maxusers, nslots, who))]
+        if nlost:
+            # the existence check of SetupNewUser is this lookup: an account it does not see can be registered a second time
+            bad.append(("reg-index-lookup", "%d account(s) held by the final index are not found by cache.DoSearchUserRaw, the lookup SetupNewUser uses as its existence check "
+                        "(uid, id, answer of the lookup): %s; %s" % (nlost, [(u, idx[u - 1].decode("latin-1"), a) for u, a in lost[:6]], who)))
     bad += sem_predicates(ev, who, procs)
     if any(code == 0 for code, _, _ in rs):
         bad.append(("reg-unfinished", "a call neither failed nor returned: " + who))
@@ -334,7 +414,8 @@ def replay_main(path):
     if not obj.get("cases"):
         print(json.dumps(obj, indent=1)[:4000])
         sys.exit(1)
-    impl = vf.build_impl()
+    big = any(cs.startswith("4|") for cs in obj["cases"])       # production-size tables: the driver built with -tags docker
+    impl = vf.build_impl(tags=BIG_TAGS, name=BIG_NAME) if big else vf.build_impl()
     out = vf.run_impl(impl, "C15", obj["cases"], deadline_ms=60000)
     vf.ipc_cleanup()
     still = False
@@ -344,6 +425,10 @@ def replay_main(path):
         if g[0] == ["2"]:
             nj, rounds = (int(g[1][2]), int(g[1][3])) if len(g[1]) > 2 else (0, 1)
             found = stress_predicates(dec(g[2]), dec(g[3]), (int(g[1][0]) + nj, int(g[1][1])), o, obj.get("nslots", 50), nj, rounds)[0]
+        elif g[0] == ["4"]:
+            bc = BigCase.from_line(cs)
+            print("history %s" % bc.describe())
+            found = predicates(bc, o, obj.get("nslots", BIG_MAX_USERS))
         else:
             found = predicates(Case.from_line(cs), o, obj.get("nslots", 50))
         for key, desc in found:
@@ -351,6 +436,130 @@ def replay_main(path):
             still = True
     print("replay: %s" % ("property still violated on this input" if still else "input now behaves"))
     sys.exit(1 if still else 0)
+
+
+def compact(case, ev, rs, idx, pwd, changed, nmodel):
+    """the production-size table seen through the model's table of nmodel slots: the slots that matter - the planted accounts and
+    the first free slots (the loader chains the empty records in ascending order) - renumbered in ascending order; the generated
+    accounts f....... (never registered, never equal to a requested id) are dropped, the rest of the model's table is filled with
+    accounts nobody asks for. Returns (model table, expected result string) or None when a uid falls outside the renumbering."""
+    nfree = nmodel - len(case.planted) - 2
+    free, u = [], case.nfill + 1
+    while len(free) < nfree and u <= case.nrec:
+        if u not in case.planted:
+            free.append(u)
+        u += 1
+    slots = sorted(list(case.planted) + free)
+    pos = {u: k + 1 for k, u in enumerate(slots)}
+    pad = [b"~pad%02d" % k for k in range(nmodel - len(slots))]
+    if any(code in (1, 3) and v > 0 and v not in pos for code, v, _ in rs) or len(slots) > nmodel:
+        return None
+    if not changed <= set(slots):
+        return None
+    mtab = [case.planted.get(u, b"") for u in slots] + pad
+    obs = [v for _, code, v in ev if code == 11]
+    want = "0 " + " ".join("%d %d" % (code, pos[v] if code in (1, 3) and v > 0 else v) for code, v, _ in rs) \
+           + " -1 " + enc([idx[u - 1] for u in slots] + pad) + " -1 " + enc([pwd[u - 1] for u in slots] + pad) \
+           + " -1 " + " ".join(map(str, obs)) + " -1 %d" % (obs[-1] if obs else -1)
+    return mtab, want
+
+
+def big_section(c, rng, thorough, model):
+    """registration races on the production table sizes (second driver, -tags docker: MAX_USERS = 2 000 000 > 65 536 buckets):
+    existing accounts in slots above the number of buckets share the bucket of the id being registered and precede it in the
+    chain; new accounts themselves land in slots above 65 536 (slots 1..nfill occupied); the same predicates decide."""
+    impl = vf.build_impl(tags=BIG_TAGS, name=BIG_NAME)
+    olds = [b"Oldtimer", b"Veteran9", b"Pioneer01", b"ancientOne", b"Founder"]
+    rng.shuffle(olds)
+    olds = olds[:5 if thorough else 3]
+    q = vf.run_impl(impl, "C15", ["5|%s|%s|6" % (" ".join(map(str, o)), " ".join(map(str, b"Sd"))) for o in olds], deadline_ms=60000)
+    vf.ipc_cleanup()
+    mates = {}
+    for o, r in zip(olds, q):
+        f = r.split()
+        if f[:1] != ["0"] or len(f) < 9 or int(f[2]) != BIG_MAX_USERS:
+            c.violation("reg-driver", "the driver built with -tags docker did not answer the bucket query as expected", {"cases": [], "got": r[:300], "expected": "0 bucket %d n1..n6" % BIG_MAX_USERS})
+            return
+        mates[o] = [int(x) for x in f[3:]]                          # Sd<n> falls into the bucket of the old account
+    def twins(n):
+        return [b"Sd%d" % n, b"SD%d" % n, b"sd%d" % n, b"sD%d" % n]
+    HIGH = [65537, 65538, 70001, 65600, 131073, 99999]             # slots above the number of buckets (uid 65 537 is the first)
+    cases, kinds = [], []
+    for o in olds[:2]:                                              # the witness and the re-check window, behind a high-slot account
+        n, n2 = mates[o][0], mates[o][1]
+        for kind, ids in (("same", [twins(n)[0]] * 2), ("case-twins", twins(n)[1:3]), ("different", [twins(n)[0], twins(n2)[0]])):
+            for procs in ([0, 0], [0, 1]):
+                slot = rng.choice(HIGH)
+                sch = list(WITNESS) if procs == [0, 1] or kind == "different" else rng.choice(list(interleavings([4, 4])))
+                cases.append(BigCase(0, slot + 1, 0, {slot: o}, [(procs, ids, sch), ([0], [rng.choice([b"late99", twins(n)[3]])], [])]))
+                kinds.append("production-size/behind-high-slot/" + kind)
+    for _ in range(400 if thorough else 14):                        # sampled: 2-3 registrations, 1-2 old accounts in the bucket (high and low slots),
+        o = rng.choice(olds)                                        # ids of the bucket (twins, different), the old account's own id in another case
+        ns = mates[o]
+        planted = {rng.choice(HIGH): o}
+        if rng.random() < 0.5:
+            planted[rng.choice([3, 7, 65536, 65535, 66000, 140000])] = b"Sd%d" % ns[5]
+        nt = rng.choice([2, 2, 3])
+        pool = twins(ns[0]) + twins(ns[1])[:2] + [o.swapcase(), b"other22"]
+        ids = [rng.choice(pool) for _ in range(nt)]
+        s = [t for t in range(nt) for _ in range(4)]
+        rng.shuffle(s)
+        nproc = rng.choice([1, 2, 3])
+        cases.append(BigCase(rng.choice([0, 0, 0, 1]), max(planted) + rng.choice([1, 5]), 0, planted,
+                             [([rng.randrange(nproc) for _ in range(nt)], ids, s), ([0], [rng.choice([b"late99", pool[0], o.lower()])], [])]))
+        kinds.append("production-size/sampled/%dx" % nt)
+    for k in range(40 if thorough else 4):                          # slots 1..nfill occupied: the new accounts themselves get slots above 65 536
+        o = rng.choice(olds)
+        ns = mates[o]
+        nfill = rng.choice([65536, 65540, 66000, 65535])
+        kind = ["same", "case-twins", "different", "case-twins"][k % 4]
+        ids = {"same": [twins(ns[0])[0]] * 2, "case-twins": twins(ns[0])[1:3], "different": [twins(ns[0])[0], twins(ns[1])[0]]}[kind]
+        s = [0] * 4 + [1] * 4
+        rng.shuffle(s)
+        planted = {nfill + 40: o} if k % 2 else {}
+        cases.append(BigCase(0, nfill + 60, nfill, planted, [([0, k % 2], ids, s if k >= 2 else list(WITNESS)), ([0, 0], [twins(ns[0])[3], b"late99"], [0, 1, 1, 0, 0, 1, 0, 1])]))
+        kinds.append("production-size/new-accounts-in-high-slots/" + kind)
+    if thorough:                                                    # the last slots of the table: a .PASSWDS of 2 000 000 records (1 GB)
+        o = olds[0]
+        cases.append(BigCase(0, BIG_MAX_USERS, 0, {BIG_MAX_USERS - 1: o}, [([0, 1], twins(mates[o][0])[1:3], list(WITNESS)), ([0], [b"late99"], [])]))
+        kinds.append("production-size/last-slots")
+    lines = [cs.line() for cs in cases]
+    io = run_cases(impl, lines, par=4)
+    vf.ipc_cleanup()
+    c.count(len(lines), "forced interleavings on production-size tables (driver built with -tags docker)")
+    mlines, wants, midx = [], [], []
+    outcomes = {}
+    for k, (case, line, o) in enumerate(zip(cases, lines, io)):
+        c.cov["distribution"][kinds[k]] = c.cov["distribution"].get(kinds[k], 0) + 1
+        for key, desc in predicates(case, o, BIG_MAX_USERS):
+            c.violation(key, desc, {"cases": [line], "got": o[:3000], "nslots": BIG_MAX_USERS, "build": "go build -tags '%s' (lib/vf.py build_impl(tags, name=%r)); ./check C15 --replay <this file> builds it" % (BIG_TAGS, BIG_NAME),
+                                    "expected": {"successes per case-insensitive id": "at most 1, none for an id an existing account holds", "slots": "distinct, previously free",
+                                                 "index and .PASSWDS": "initial table + exactly the successes", "lookup": "every account of the index is found by cache.DoSearchUserRaw"}})
+        p = parse_big(case, o, BIG_MAX_USERS)
+        if p is None:
+            continue
+        ev, rs, look, idx, pwd, extra = p
+        c.nontrivial(("production-size", tuple(case.procs), tuple(case.ids), tuple(sorted(case.planted.items())), case.nfill, tuple(ev)))
+        oc = "".join("S" if code == 1 else {1: "E", 2: "N", 104: "I"}.get(v, "?") for code, v, _ in rs)
+        outcomes[oc] = outcomes.get(oc, 0) + 1
+        cm = compact(case, ev, rs, idx, pwd, extra[3], 50)
+        if cm is None:
+            c.broken.append({"kind": "correspondence", "where": "production-size run vs Model/C15 replay", "theorem": "trace validation",
+                             "mismatches": 1, "examples": [{"case": line, "impl": o[:2000], "why": "a result or a changed slot lies outside the planted accounts and the first free slots"}], "log": ""})
+            continue
+        mlines.append("2|%s|%s|%s|%s" % (" ".join(map(str, case.procs)), enc(case.ids), enc(cm[0]), " ".join(map(str, model_schedule(ev)))))
+        wants.append(cm[1]); midx.append(k)
+    c.cov["production_size_outcomes(per call: S=registered,E=exists,N=no slot,I=semop interrupted)"] = outcomes
+    if model and mlines:
+        mo = vf.run_model(model, mlines)
+        badm = [{"case": lines[k], "impl": io[k][:2000], "model_case": ml, "model": m, "expected_after_renumbering": w}
+                for k, ml, m, w in zip(midx, mlines, mo, wants) if " ".join(m.split()) != " ".join(w.split())]
+        c.cov["production_size_traces_validated_against_model"] = len(mlines)
+        if badm:
+            c.broken.append({"kind": "correspondence", "where": "observed SetupNewUser traces on production-size tables vs Model/C15 replay (slots renumbered in ascending order)",
+                             "theorem": "trace validation", "mismatches": len(badm), "examples": badm[:3], "log": ""})
+    for k in (0, len(cases) - 1):
+        c.sample({"kind": kinds[k], "history": cases[k].describe(), "observed": io[k][:400]})
 
 
 def main():
@@ -561,6 +770,7 @@ def main():
             c.violation(key, desc, {"cases": [line], "got": o[:3000], "nslots": nslots})
         c.nontrivial(("stress", sh, nj, tuple(pool), tuple(sorted(st.items()))))
     c.cov["stress_call_results"] = sstats
+    big_section(c, rng, thorough, model)
     c.cov["did_not_return(reported under parallel load / re-run alone with 8x waits / returned on the re-run)"] = [RERUN["reported"], RERUN["rerun"], RERUN["returned_on_rerun"]]
     for k in (0, nw + 5, n2 + 1, nsingle + 5, nh2 + 1, nhist + 7, njoin2 + 1, njoin + 40, nleave2 + 1):
         c.sample({"kind": kinds[k], "history": cases[k].describe(), "observed": io[k][:400]})
@@ -574,13 +784,21 @@ def main():
                   "registration after 0..3 segments and a second registration (same / other process) after 0..3 segments in every order, then registrations of the dead call's id and of another id; "
                   "PRNG(seed)-sampled churn (a process leaves at a random moment, sometimes another joins, more calls); unscheduled runs in which 1-2 processes start up while the others register on a nearly full table; "
                   "the driver reads the semaphore value (semctl GETVAL, workers alive) before the first call, after every controller step and after every phase, and after every unscheduled run; "
+                  "production table sizes (second driver, go build -tags 'verif docker': MAX_USERS = 2 000 000 slots, 65 536 buckets): 3 ids x {same, case twins, different ids of one bucket} x {one, two processes} "
+                  "registered behind an existing account planted in a slot above 65 536 that shares their bucket (witness schedule and PRNG(seed)-sampled interleavings), PRNG(seed)-sampled 2-3 registrations over 1..3 processes "
+                  "with 1-2 such accounts in high and low slots (also registering the old account's own id in another letter case), and tables whose slots 1..65 535/65 536/65 540/66 000 are occupied so that the new accounts "
+                  "get slots above 65 536; each followed by a late registration; the driver looks every account of the final index up through cache.DoSearchUserRaw; "
                   "a case is non-trivial/distinct by its (shape, process assignment, ids, table fill, observed event trace)",
              assumptions=["semop(2) on the passwd semaphore is an atomic P/V granting exclusivity; one DoSearchUserRaw / SetUserID / .PASSWDS record write is one atomic step of the model (the controller serialises the threads at the schedule points)",
                           "tryCleanUser is a no-op during the runs (.fresh is recent): account expiry is C03's subject",
                           "a call that has not produced the event the controller waits for after 8 s - and, run again alone, after 64 s - never returns (status 2 is only kept when the re-run alone with 8 times longer waits hangs as well)",
                           "SEM_UNDO: when a process goes away (exit or SIGKILL) the kernel adds its per-process adjustment to the semaphore before the parent's wait returns; the harness stops a process only while its calls are parked at the schedule points, in semop, or not started",
                           "a call whose process went away after it had written the index and .PASSWDS (seen at reg.beforeUnlock) holds its slot and id although it never returned",
-                          "free slots are chained in ascending order after a load (the model takes the lowest free slot; checked by the trace validation)"])
+                          "free slots are chained in ascending order after a load (the model takes the lowest free slot; checked by the trace validation)",
+                          "production-size runs (-tags docker): the quick tier uses .PASSWDS files of 65 538 .. 140 005 records with accounts in slots up to 140 000; the last slots of the 2 000 000-slot table (a 1 GB .PASSWDS) are exercised in the thorough tier only; "
+                          "their traces are validated against the model after renumbering the slots that matter (planted accounts, the first free slots) in ascending order into the model's 50-slot table - the generated accounts, "
+                          "which no request names, are dropped; the verdicts come from the predicates on the real slot numbers, not from this renumbering",
+                          "only SetupNewUser/NewRegister and the id-index lookup are run on the production sizes; joins/leaves of processes and the semaphore histories are exercised on the default table sizes (the semaphore code does not depend on MAX_USERS)"])
 
 
 if __name__ == "__main__":
